@@ -5,7 +5,7 @@ import os, hashlib
 
 from ..common import SPEC, Scratch, rng, MachineryError, B
 from ..report import Report
-from .. import tlc, bf3lib as L, bec2lib as B2
+from .. import tlc, bf3lib as L, bec2lib as B2, errpaths as E
 
 CFG = "INIT Init\nNEXT Next\n"
 TCFG = "INIT Init\nNEXT Next\nCONSTANTS SHORT_READ_OK = FALSE\nENC_NEVER_DECRYPTS = FALSE\nDEC_STRIPS_ZEROS = FALSE\nECC_FALLBACK_SEL0 = FALSE\n"
@@ -13,7 +13,14 @@ MCFG = CFG + "CONSTANTS SHORT_READ_OK = FALSE\nENC_NEVER_DECRYPTS = FALSE\nDEC_S
 
 
 def rec_wrap(rec, enc, spec, plain):
-    out = enc.encrypt(bytes(plain))
+    try:
+        out = enc.encrypt(bytes(plain))
+    except Exception as e:                      # noqa: BLE001 -- a refused payload of <= 253 bytes: recorded, the specification rejects it
+        if len(plain) > 253:
+            raise
+        rec.add({"op": "c08.wrap", "key": spec["key"], "ck": spec["ck"], "pos": spec["pos"], "plain": B(plain), "out": [],
+                 "variant": spec["kind"], "exc": L.exc_info(e)})
+        return bytes(16)
     rec.add({"op": "c08.wrap", "key": spec["key"], "ck": spec["ck"], "pos": spec["pos"], "plain": B(plain), "out": B(out),
              "variant": spec["kind"]})
     return out
@@ -71,6 +78,8 @@ def run(tier):
                         cc = bytearray(c)
                         cc[r.randrange(len(cc))] ^= 1 << r.randrange(8)
                         rec_unwrap(rec, enc, spec, bytes(cc))
+        # error-path histories on ONE encryptor object: refused / failing calls interleaved with valid ones
+        E.container_error_paths(rec, r, rec_wrap, rec_unwrap, B2)
         # payloads whose CRC high / low byte takes every value (in particular 0x00): found by search
         need = {(h, v) for h in (0, 1) for v in range(256)}
         enc, spec = B2.dec_cust(L.gen_key(r))
